@@ -1288,6 +1288,11 @@ class InterpExpr:
             return False
         if isinstance(a, HeapVal) and isinstance(b, HeapVal):
             return a.ref == b.ref
+        # Optional reference (null when None) against a reference / another Optional reference
+        ra = a.ref if isinstance(a, HeapVal) else a.t if (isinstance(a, SV) and isinstance(a.ty, TOpt) and a.t.sort() == Ref) else None
+        rb = b.ref if isinstance(b, HeapVal) else b.t if (isinstance(b, SV) and isinstance(b.ty, TOpt) and b.t.sort() == Ref) else None
+        if ra is not None and rb is not None:
+            return ra == rb
         if isinstance(a, (EnumMember, ClassV)) or isinstance(b, (EnumMember, ClassV)):
             return self.eq(a, b)
         if isinstance(a, bool) or isinstance(b, bool) or (isinstance(a, SV) and a.ty == BOOL) or (isinstance(b, SV) and b.ty == BOOL):
